@@ -4,7 +4,7 @@ Sessions p1 = parse(b); b2 = build(p1); p2 = parse(b2); b3 = build(p2) (C02Canon
 are recorded from the real library on random, boundary-biased, canonical and mutated inputs; TLC evaluates the clauses
 of spec/Props.tla on the recorded results.  The parse result is fed back as returned.
 """
-from .. import ast as A, gen, values as V, campaign, tlc
+from .. import ast as A, gen, values as V, campaign, tlc, speccode
 from . import common
 
 LEVEL = "model_checking"
@@ -30,6 +30,18 @@ def run(ctx):
             common.standard_program_calls(camp, rng, prog, con, kw, nvalues=3, ninputs=4, clauses=CLAUSES, offsets=False, maxlen=8)
             if i < 3:
                 ctx.sample({"program": prog})
+        # spec -> code: on the sessions TLC explores on the model's universe, the four-call session from the same input
+        # and the three-call session from the value the specification parsed
+        uprogs, ukw, sessions, _ = speccode.explore(ctx, focus="all", part=speccode.part_of(ctx, 8 if quick else 16))
+        def on(camp, prog, con, s, idx):
+            camp.roundtrip_from_bytes(prog, con, bytes(s["data"]), ukw)
+            if idx["build"]:
+                try:
+                    obj = V.dec(s["calls"][1]["arg"])
+                except Exception:
+                    return
+                camp.roundtrip_from_value(prog, con, obj, ukw, ("C02.self",))
+        speccode.drive(camp, uprogs, ukw, sessions, on)
         vs = camp.validate()
         campaign.judge(ctx, camp, vs, conformance=None, clauses=CLAUSES)
         nt = set()
